@@ -2048,3 +2048,43 @@ for _ty in ('usize', 'u8', 'u16', 'u32', 'u64', 'i32', 'i64'):
         for _l, _r in (('&' + _ty, _ty), ('&' + _ty, '&' + _ty), (_ty, '&' + _ty)):
             TABLE['<%s as std::ops::%s<%s>>::%s' % (_l, _tr, _r, _m)] = _ref_binop(_op)
 PREFIX[:] = [(p_, h_) for (p_, h_) in PREFIX if p_ != '<&usize as std::ops::Rem<usize>>::rem']
+
+
+# ---- calling a closure through the Fn traits (generic `impl Fn(..)` parameters)
+@summary('std::ops::Fn::call', 'std::ops::FnMut::call_mut', 'std::ops::FnOnce::call_once')
+def fn_trait_call(I, st, fr, t, a):
+    f = a[0]
+    args = a[1]
+    if isinstance(args, Struct) and args.ty in ('tuple', '()'):
+        argv = list(args.fields)
+    elif args is UNIT:
+        argv = []
+    else:
+        raise from_undecided()('call through Fn trait with arguments %r' % (args,))
+    fv = I.deref(st, f) if isinstance(f, Ref) else f
+    if isinstance(fv, Ref):
+        fv = I.deref(st, fv)
+    if isinstance(fv, FnItem) or (isinstance(fv, Struct) and fv.ty.startswith('closure:')):
+        return I.call_closure(st, f if isinstance(f, Ref) and not isinstance(I.deref(st, f), Ref) else fv, argv)
+    raise from_undecided()('call through Fn trait of an unknown callable %r' % (fv,))
+
+
+def _checked(op):
+    def h(I, st, fr, t, a):
+        x, y = a[0], a[1]
+        ty = ret_ty(I, fr, t) or OPT
+        if isinstance(x, BV) and isinstance(y, BV) and x.known() and y.known():
+            w = x.w
+            v = x.uval() + y.uval() if op == 'add' else x.uval() - y.uval()
+            if 0 <= v < (1 << w):
+                return some(BV.const(v, w), ty), st
+            return none(ty), st
+        ovf = I.overflow_bit('Add' if op == 'add' else 'Sub', x, y)
+        r = I.binop('Add' if op == 'add' else 'Sub', x, y)
+        return I.merge(ovf, none(ty), some(r, ty)), st
+    return h
+
+
+for _ty in ('u8', 'u16', 'u32', 'u64', 'usize'):
+    TABLE['core::num::<impl %s>::checked_sub' % _ty] = _checked('sub')
+    TABLE['core::num::<impl %s>::checked_add' % _ty] = _checked('add')
